@@ -107,6 +107,8 @@ let str_calls l = String.concat " " (List.map (fun (a, d) -> string_of_int (int_
 let side_path (s:string) : side list =
   let l = ref [] in String.iter (fun c -> match c with 'L' -> l := SL :: !l | 'R' -> l := SR :: !l | _ -> ()) s; List.rev !l
 
+let str_bres = function BOk b -> if b then "1" else "0" | BAssert -> "EXC AssertionError" | BFuel -> "FUEL" | BUnmodelled -> "UNMODELLED"
+
 let handle (line:string) : string =
   match words line with
   | "TOK" :: ex :: cps ->
@@ -238,6 +240,22 @@ let handle (line:string) : string =
     String.concat " | " (List.rev !outs)
   | "MAKETERM" :: c :: v :: e :: [] ->
     (match make_term (num_of_string c) (ovar_of v) (onum_of e) with Some t -> "OK " ^ str_expr t | None -> "NONE")
+  | "SUBTERMS" :: ws ->
+    let so = function Some e -> str_expr e | None -> "-" in
+    (match get_sub_terms (expr_of ws) with
+     | GTerms l -> "OK " ^ String.concat " ; " (List.map (fun ((c, v), e) -> so c ^ " , " ^ so v ^ " , " ^ so e) l)
+     | GFalse -> "FALSE" | GAssert -> "EXC AssertionError" | GFuel -> "FUEL")
+  | "SIMPLE" :: ws -> str_bres (is_simple_term (expr_of ws))
+  | "PREFERRED" :: pp :: ws -> str_bres (is_preferred_term_form (expr_of ws) (path_of pp))
+  | "GETTERM" :: pp :: ws ->
+    (match get_term (expr_of ws) (path_of pp) with
+     | None -> "FALSE"
+     | Some t -> "OK " ^ String.concat "," (List.map str_num t.tr_coefs) ^ " | " ^ String.concat "," (List.map str_n t.tr_vars) ^ " | " ^ str_onum t.tr_exp)
+  | "GETTERMS" :: pp :: ws -> "OK " ^ String.concat " " (List.map str_path (get_terms (expr_of ws) (path_of pp)))
+  | "HASLIKE" :: pp :: ws -> if has_like_terms (expr_of ws) (path_of pp) then "1" else "0"
+  | "LIKE" :: p1 :: p2 :: ws ->
+    let (a, b) = split_at ";" ws in
+    if terms_are_like (expr_of a) (path_of p1) (expr_of b) (path_of p2) then "1" else "0"
   | _ -> "?"
 
 let () =
